@@ -69,8 +69,12 @@ def run_case(case, fail, stats):
         At = (svd.U[:, keep] * s[keep]) @ svd.Vh[keep, :]
         xref = np.linalg.pinv(At, rcond=1e-15) @ b if keep.any() else np.zeros(A.shape[1])
         scale = max(1.0, float(np.max(np.abs(xref))) if xref.size else 1.0)
-        if x.shape != xref.shape or not np.allclose(x, xref, rtol=1e-8, atol=1e-9 * scale):
-            fail("C16", "lstsq-differs-from-truncated-pinv", {"A": case["A"], "b": case["b"], "rcond": rcond, "cutoff": cutoff,
+        # two correct solvers differ by about eps * cond * |x| on an ill-conditioned (truncated) matrix
+        cond = float(s[keep].max() / s[keep].min()) if keep.any() else 1.0
+        tol = max(1e-9, 1e-13 * cond)
+        stats["max_cond_log10"] = max(stats.get("max_cond_log10", 0), int(np.log10(max(cond, 1.0))))
+        if x.shape != xref.shape or not np.allclose(x, xref, rtol=10 * tol, atol=tol * scale):
+            fail("C16", "lstsq-differs-from-truncated-pinv", {"A": case["A"], "b": case["b"], "rcond": rcond, "cutoff": cutoff, "cond": cond,
                                                                "got": x.tolist(), "want": xref.tolist()})
             return
         # least squares and minimum norm against perturbations
@@ -103,7 +107,9 @@ def run_case(case, fail, stats):
             At = (svd.U[:, keep] * s[keep]) @ svd.Vh[keep, :]
             xref = np.linalg.pinv(At, rcond=1e-15) @ b if keep.any() else np.zeros(A.shape[1])
             scale = max(1.0, float(np.max(np.abs(xref))) if xref.size else 1.0)
-            if not np.allclose(x, xref, rtol=1e-8, atol=1e-9 * scale):
+            cond = float(s[keep].max() / s[keep].min()) if keep.any() else 1.0
+            tol = max(1e-9, 1e-13 * cond)
+            if not np.allclose(x, xref, rtol=10 * tol, atol=tol * scale):
                 fail("C16", "reused-SVD-lstsq-differs-from-truncated-pinv", {"A": case["A"], "calls": case["calls"],
                                                                               "failing_call": [b.tolist(), rcond, cutoff],
                                                                               "got": x.tolist(), "want": xref.tolist()})
